@@ -22,7 +22,7 @@ func c09(c *eng.Ctx, r *eng.Report) {
 		"R9.1 no field of a protobuf message that is optional by its proto2 struct tag (`opt`) is dereferenced, and no function is handed an optional nested message, without a nil guard on that path (required fields are exempt: Unmarshal rejects their absence); " +
 		"R9.2 for each codec pair every field of the Go struct is read by the encoder and written by the decoder (reviewed exclusions listed), every field the identifying hash covers is among them, and *big.Int fields are reconstructed under a nil (presence) test, not a length test, so that zero survives; " +
 		"R9.3 discarded errors of time/JSON (un)marshalling inside the converters are listed; " +
-		"R9.4 values cross the codec verbatim — every call made by a codec function of middleware/types (and the same-package helpers it reaches) is a reviewed value-preserving conversion, a generated getter or a sibling codec function, and no output element aliases a loop variable that the next iteration overwrites. " +
+		"R9.4 values cross the codec verbatim — every call made by a codec function of middleware/types (and the same-package helpers it reaches) is a reviewed value-preserving conversion, a generated getter or a sibling codec function, and no output element aliases a loop variable that the next iteration overwrites; no floating-point value appears in a codec function (integers decoded through float64 are rounded above 2^53). " +
 		"R9.5 inside the parsers (UnMarshal*, PbTo*) a Go-side pointer that a converter may have left nil — the result of a converter with a nil return, or a struct field such a result was stored in (Block.Header) — is dereferenced only under a nil test. " +
 		"Not decided: value equality after a round trip (nil-vs-empty slices, time zones)."
 	r.Assume = []string{"golang/protobuf proto2 Unmarshal returns an error when a `req` field is absent", "generated GetX() accessors are nil-safe"}
@@ -30,6 +30,7 @@ func c09(c *eng.Ctx, r *eng.Report) {
 	c09Coverage(c, r)
 	c09Errors(c, r)
 	c09Verbatim(c, r)
+	c09FloatFree(c, r)
 	c09GoNil(c, r)
 }
 
@@ -507,6 +508,37 @@ func c09Verbatim(c *eng.Ctx, r *eng.Report) {
 }
 
 // cycleAvoiding: b lies on a CFG cycle that does not pass through avoid.
+// c09FloatFree: 64-bit integers (request ids, nonces, heights) do not survive a
+// detour through float64 — generic JSON decoding into interface{} yields
+// float64 for every number.
+func c09FloatFree(c *eng.Ctx, r *eng.Report) {
+	const rule = "R9.4"
+	bad := ""
+	n := 0
+	for _, fn := range codecCone(c) {
+		if fn.Blocks == nil {
+			continue
+		}
+		n++
+		if hf, pos := eng.HasFloat(fn); hf && bad == "" {
+			if !pos.IsValid() {
+				pos = fn.Pos()
+			}
+			bad = eng.FuncName(fn) + " (" + c.Pos(pos) + ")"
+		}
+		for _, b := range fn.Blocks {
+			for _, in := range b.Instrs {
+				if ta, ok := in.(*ssa.TypeAssert); ok && bad == "" {
+					if bt, isB := ta.AssertedType.Underlying().(*types.Basic); isB && bt.Info()&types.IsFloat != 0 {
+						bad = eng.FuncName(fn) + " (" + c.Pos(ta.Pos()) + ")"
+					}
+				}
+			}
+		}
+	}
+	r.Check(bad == "" && n >= 10, rule, "codec:float-free", "", fmt.Sprintf("no floating-point value in the %d codec functions", n), "a floating-point value appears in codec function "+bad+": an integer field that crosses the codec as float64 (JSON decoded into interface{}) is rounded above 2^53, so the parsed object differs from the serialised one and its hash no longer matches")
+}
+
 func cycleAvoiding(b, avoid *ssa.BasicBlock) bool {
 	seen := map[*ssa.BasicBlock]bool{}
 	var walk func(x *ssa.BasicBlock) bool
@@ -619,9 +651,51 @@ func c09GoNil(c *eng.Ctx, r *eng.Report) {
 			}
 		}
 	}
+	// helpers of other module packages the parsers call (common.BytesToSign returns nil for a wrong length)
+	helperNil := map[*ssa.Function]int{} // 0 unknown, 1 may return nil, 2 never
+	mayReturnNil := func(f *ssa.Function) bool {
+		if nilable[f] {
+			return true
+		}
+		if helperNil[f] != 0 {
+			return helperNil[f] == 1
+		}
+		helperNil[f] = 2
+		if !eng.InMod(f) || f.Blocks == nil || f.Signature.Results().Len() != 1 {
+			return false
+		}
+		if _, isPtr := f.Signature.Results().At(0).Type().Underlying().(*types.Pointer); !isPtr {
+			return false
+		}
+		for _, re := range eng.Returns(f) {
+			if eng.IsNilConst(re.Incoming(0)) {
+				helperNil[f] = 1
+				// nil only for a nil argument?
+				idx := -1
+				blk := re.Ret.Block()
+				if re.Pred != nil {
+					blk = re.Pred
+				}
+				for _, cd := range eng.EdgeConds(blk) {
+					if m, ok := cd.Cmp(); ok && m.Op == token.EQL {
+						for i, prm := range f.Params {
+							if (m.X == ssa.Value(prm) && eng.IsNilConst(m.Y)) || (m.Y == ssa.Value(prm) && eng.IsNilConst(m.X)) {
+								idx = i
+							}
+						}
+					}
+				}
+				if prev, had := onlyForNilArg[f]; had && prev != idx {
+					idx = -1
+				}
+				onlyForNilArg[f] = idx
+			}
+		}
+		return helperNil[f] == 1
+	}
 	fromNilable := func(v ssa.Value) bool {
 		call, ok := v.(*ssa.Call)
-		if !ok || call.Call.StaticCallee() == nil || !nilable[call.Call.StaticCallee()] {
+		if !ok || call.Call.StaticCallee() == nil || !mayReturnNil(call.Call.StaticCallee()) {
 			return false
 		}
 		// nil only for a nil argument, and the argument is the address of a local: cannot be nil here
@@ -668,9 +742,27 @@ func c09GoNil(c *eng.Ctx, r *eng.Report) {
 		}
 		for _, b := range fn.Blocks {
 			for _, in := range b.Instrs {
-				fa, ok := in.(*ssa.FieldAddr)
-				if !ok {
+				var base ssa.Value
+				switch x := in.(type) {
+				case *ssa.FieldAddr:
+					base = x.X
+				case *ssa.UnOp:
+					// *p of a struct pointer: the implicit dereference of a value-receiver method call, or a copy
+					if x.Op == token.MUL {
+						if _, isCall := x.X.(*ssa.Call); isCall {
+							base = x.X
+						}
+					}
+				}
+				if base == nil {
 					continue
+				}
+				fa := &struct {
+					X   ssa.Value
+					pos token.Pos
+				}{base, in.Pos()}
+				if !fa.pos.IsValid() {
+					fa.pos = base.Pos()
 				}
 				what := ""
 				if fromNilable(fa.X) {
@@ -689,7 +781,7 @@ func c09GoNil(c *eng.Ctx, r *eng.Report) {
 				}
 				seen[key] = true
 				n++
-				r.Check(guarded(fa, fa.X), rule, key, c.Pos(fa.Pos()), "dereferenced under a nil test", eng.FuncName(fn)+" looks inside "+what+" without a nil test: bytes that omit (or garble) that part make the converter return nil and the parser dies with a nil-pointer panic instead of returning an object or an error")
+				r.Check(guarded(in, fa.X), rule, key, c.Pos(fa.pos), "dereferenced under a nil test", eng.FuncName(fn)+" looks inside "+what+" without a nil test: bytes that omit (or garble) that part make the converter return nil and the parser dies with a nil-pointer panic instead of returning an object or an error")
 			}
 		}
 	}
